@@ -27,7 +27,8 @@
 (***************************************************************************)
 EXTENDS Integers, Sequences, FiniteSets, TLC
 
-CONSTANTS Atoms,      \* set of atom values used at the top level and in depth-1 lists
+CONSTANTS WideSizes,  \* element counts of the wide lists (around MAX_PARAM_LENGTH = 1024)
+          Atoms,      \* set of atom values used at the top level and in depth-1 lists
           AtomsMid,   \* atoms used inside depth-2 lists
           AtomsDeep,  \* atoms used inside depth-3 lists
           MaxLen,     \* maximal list length enumerated
@@ -56,6 +57,12 @@ L3 == Lists(AtomsDeep \cup L2d)
 RECURSIVE Nest(_, _)
 Nest(d, v) == IF d = 0 THEN v ELSE List(<<Nest(d - 1, v)>>)
 Values == Atoms \cup L1 \cup L2 \cup L3 \cup {Nest(d, a) : d \in 4..MaxNest, a \in AtomsDeep}
+\* wide lists: many direct elements, at the top level and nested (first / second position of a short list)
+WideAtom == Atom("bool", <<1>>)
+WideOther == Atom("bytes", <<7>>)
+Wide(nn) == List(Rep(WideAtom, nn))
+WideValues == UNION {{Wide(nn), List(<<WideOther, Wide(nn)>>), List(<<Wide(nn), WideOther>>),
+                      List(<<WideOther, Wide(nn), WideOther>>)} : nn \in WideSizes}
 \* values whose encodings are mutated
 Subjects == Atoms \cup L1m \cup {v \in L2 : Len(v.e) = 2 /\ v.e[1].t = "list" /\ v.e[2].t # "list"} \cup {Nest(3, a) : a \in AtomsDeep}
 
@@ -140,7 +147,7 @@ CallCase(v, p) == LET bs == p \o Enc(v) IN Case("Call", IF p = <<0>> THEN "goodp
 NotifyCase(v, p) == LET bs == p \o Enc(v) IN Case("Notify", IF p = EVT THEN "goodprefix" ELSE "badprefix", bs, NotifyDec(bs))
 
 Init == phase = "run" /\ act = [name |-> "Init"]
-Next == \/ \E v \in Values : EncodeCase(v)
+Next == \/ \E v \in Values \cup WideValues : EncodeCase(v)
         \/ \E v \in Subjects : \E i \in 1..Len(Enc(v)) : \E x \in Repl \cup {(Enc(v)[i] + 1) % 256} : x # Enc(v)[i] /\ DecodeByte(v, i, x)
         \/ \E v \in Subjects : \E i \in 0..(Len(Enc(v)) - 1) : DecodeTrunc(v, i)
         \/ \E v \in Subjects : \E i \in 1..(Len(Enc(v)) - 3) : DecodeWin(v, i)
